@@ -1,4 +1,5 @@
 import SqlgrepModel.Lemmas.ParseCaseCreate
+import SqlgrepModel.Lemmas.ParseRenameCreate
 import SqlgrepModel.Props.C20Stmt
 /-
 C20 — CREATE TABLE texts at statement level (third review, coverage gap 7; `Props/C20Stmt.lean` MISSING item (a)).
@@ -29,9 +30,12 @@ Proved outright, for one or several `CREATE TABLE …;` statements:
   `create_table_name_case_statement`   same `LStmt` / same kind of conversion error   (`parsing::parse` on tokens)
   `create_table_name_case_text`        … for two texts                                (`parsing::parse`)
   `create_table_name_case_same_output` … the whole program answers alike              (`Pipeline.runText`)
-  `create_table_name_case_rejected`    rejected by the parser iff the variant is      (error direction, any error)
-`…_error_kind_partial` (the rejected text's error has the same KIND and location): for one respelling per text, see
-there.
+  `create_table_name_case_rejected`    rejected by the parser iff the variant is      (error direction)
+  `create_table_name_case_error_kind`  … with an error of the same kind               (kinds compared up to the quoted
+                                       type name of `NotDefinedType`, which shows the spelling: `SameKind`)
+  `create_table_respell_equivariant`   `Parser::parse` commutes with respelling EVERY identifier by one map `ρ`
+                                       (`CreateNameMap ρ`, e.g. lower-casing): tree with its names respelled, or the
+                                       same error with its payload respelled — the route to the error kinds
 -/
 namespace Sqlgrep.Props.C20Create
 open Sqlgrep Sqlgrep.Parse Sqlgrep.Lower Sqlgrep.Pipeline
@@ -157,8 +161,7 @@ theorem create_table_name_case_same_output (F : Facts) (defs₁ defs₂ query : 
 /-! ### (3) the error direction -/
 
 /-- **A rejected text stays rejected** (`create_table_name_case_rejected`): `Parser::parse` rejects a CREATE TABLE
-token vector iff it rejects the case variant (per occurrence, as above). Nothing is said here about the KIND of the
-two errors: `create_table_name_case_error_kind_partial`. -/
+token vector iff it rejects the case variant (per occurrence, as above). -/
 theorem create_table_name_case_rejected (toks₁ toks₂ : List PTok) (hc : CreateVector toks₁) (hv : CaseVariant toks₁ toks₂) :
     (∃ e, parseTokens PrecTables.code toks₁ = .error e) ↔ (∃ e, parseTokens PrecTables.code toks₂ = .error e) := by
   have ne₁ : toks₁ ≠ [] := by intro h0; simp [h0, CreateVector] at hc
@@ -175,6 +178,81 @@ theorem create_table_name_case_rejected (toks₁ toks₂ : List PTok) (hc : Crea
     · obtain ⟨t', ht', _⟩ := create_table_name_case_tree toks₁ toks₂ hc hv t ht
       rw [he] at ht'; cases ht'
     · exact h
+
+/-- **`Parser::parse` on CREATE TABLE vectors is equivariant under respelling every identifier**
+(`create_table_respell_equivariant`): for ONE map `ρ` that changes letter case only, is compatible with `.` and the
+`[]` the parser appends to a type name, and fixes the names the parser makes up (`CreateNameMap ρ`: lower-casing is one,
+`createNameMap_lowerChars`), the vector with EVERY identifier `n` replaced by `ρ n` — names included — is read as the
+tree with its table, pattern, column and JSON field names respelled and everything else the same, or is rejected with
+the same error at the same token, `NotDefinedType`'s quoted name respelled (`Lemmas/ParseRenameCreate.lean`, the
+CREATE TABLE path in lock step on top of `ren_all`). -/
+theorem create_table_respell_equivariant (ρ : List Char → List Char) (hρ : CreateNameMap ρ) (toks : List PTok)
+    (hc : CreateVector toks) :
+    parseTokens PrecTables.code (toks.map (PTok.ren ρ)) = (parseTokens PrecTables.code toks).renCreate ρ :=
+  parseTokens_create_ren hρ noIdentOps_code toks hc
+
+/-- two parser error kinds are the same kind: equal, or both `NotDefinedType` quoting type names that are equal up to
+letter case (the payload is the spelling found in the text: `NotDefinedType("FOO[]")` against `NotDefinedType("foo[]")`) -/
+def SameKind (k₁ k₂ : PErrKind) : Prop :=
+  k₁ = k₂ ∨ ∃ n m, k₁ = .notDefinedType n ∧ k₂ = .notDefinedType m ∧ lowerChars n = lowerChars m
+
+theorem sameKind_of_lower {k₁ k₂ : PErrKind} (h : k₁.ren lowerChars = k₂.ren lowerChars) : SameKind k₁ k₂ := by
+  by_cases h1 : ∃ n, k₁ = .notDefinedType n
+  · obtain ⟨n, rfl⟩ := h1
+    cases k₂ <;> simp only [PErrKind.ren, reduceCtorEq, PErrKind.notDefinedType.injEq] at h
+    exact .inr ⟨_, _, rfl, rfl, h⟩
+  · by_cases h2 : ∃ m, k₂ = .notDefinedType m
+    · obtain ⟨m, rfl⟩ := h2
+      cases k₁ <;> simp only [PErrKind.ren, reduceCtorEq, PErrKind.notDefinedType.injEq] at h
+      exact absurd ⟨_, rfl⟩ h1
+    · have e1 : k₁.ren lowerChars = k₁ := by
+        cases k₁ <;> first | rfl | exact absurd ⟨_, rfl⟩ h1
+      have e2 : k₂.ren lowerChars = k₂ := by
+        cases k₂ <;> first | rfl | exact absurd ⟨_, rfl⟩ h2
+      rw [e1, e2] at h
+      exact .inl h
+
+theorem strip_ren (ρ : List Char → List Char) (ts : List PTok) :
+    (ts.map PTok.strip).map (PTok.ren ρ) = (ts.map (PTok.ren ρ)).map PTok.strip := by
+  simp only [List.map_map]
+  rfl
+
+/-- **A rejected text is rejected with an error of the same kind** (`create_table_name_case_error_kind`): if
+`Parser::parse` rejects a CREATE TABLE token vector with the error `e₁`, it rejects every case variant (per occurrence)
+with an error of the same kind (`SameKind`: up to the spelling quoted by `NotDefinedType`).
+Route: both vectors have the same all-lower-case spelling (`caseVariantFrom_lower`), `Parser::parse` commutes with
+lower-casing every identifier (`create_table_respell_equivariant`) and with relocating tokens (`parseTokens_strip`). -/
+theorem create_table_name_case_error_kind (toks₁ toks₂ : List PTok) (hc : CreateVector toks₁) (hv : CaseVariant toks₁ toks₂)
+    (e₁ : PErr) (h : parseTokens PrecTables.code toks₁ = .error e₁) :
+    ∃ e₂, parseTokens PrecTables.code toks₂ = .error e₂ ∧ SameKind e₁.kind e₂.kind := by
+  obtain ⟨e₂, h₂⟩ := (create_table_name_case_rejected toks₁ toks₂ hc hv).mp ⟨e₁, h⟩
+  refine ⟨e₂, h₂, sameKind_of_lower ?_⟩
+  have hl := caseVariantFrom_lower _ _ _ _ hv
+  rw [strip_ren, strip_ren] at hl
+  have h3 := congrArg (parseTokens PrecTables.code) hl
+  rw [parseTokens_strip, parseTokens_strip,
+    create_table_respell_equivariant _ createNameMap_lowerChars toks₁ hc,
+    create_table_respell_equivariant _ createNameMap_lowerChars toks₂ (hv.createVector hc), h, h₂] at h3
+  simp only [ParseOutcome.renCreate, ParseOutcome.strip, ParseOutcome.error.injEq, PErr.strip, PErr.ren, PErr.mk.injEq,
+    true_and] at h3
+  exact h3
+
+/-- … at the same locations (two texts that differ in letter case only): the same kind at the same location -/
+theorem create_table_name_case_error_kind_same_locations (toks₁ toks₂ : List PTok)
+    (hc : toks₁.head?.map (·.tok) = some (.kw .create)) (hv : caseVariantFrom .eof .eof toks₁ toks₂ = true)
+    (e₁ : PErr) (h : parseTokens PrecTables.code toks₁ = .error e₁) :
+    ∃ e₂, parseTokens PrecTables.code toks₂ = .error e₂ ∧ e₂.loc = e₁.loc ∧ SameKind e₁.kind e₂.kind := by
+  have hv' : CaseVariant toks₁ toks₂ := by
+    unfold CaseVariant
+    exact caseVariantFrom_strip _ _ _ _ hv
+  obtain ⟨e₂, h₂, hk⟩ := create_table_name_case_error_kind toks₁ toks₂ hc hv' e₁ h
+  refine ⟨e₂, h₂, ?_, hk⟩
+  have hl := caseVariantFrom_lower _ _ _ _ hv
+  have h3 := congrArg (parseTokens PrecTables.code) hl
+  rw [create_table_respell_equivariant _ createNameMap_lowerChars toks₁ hc,
+    create_table_respell_equivariant _ createNameMap_lowerChars toks₂ (hv'.createVector hc), h, h₂] at h3
+  simp only [ParseOutcome.renCreate, ParseOutcome.error.injEq, PErr.ren, PErr.mk.injEq] at h3
+  exact h3.1.symm
 
 /-! ### (4) non-vacuity: concrete texts (kernel-evaluated)
 
@@ -324,12 +402,22 @@ example : Props.Pipeline.recordsOf (runText exFacts
       "select a, b, c from t".toList .text false [strBytes "1;x;2.5\n7;;\n"]) ≠
     some (none, 2, [strBytes "a: 1, b: 'x', c: NULL", strBytes "a: 7, b: '', c: NULL"]) := by decide +kernel
 
-/-- a rejected vector and its variant (`FOO` is no type): `create_table_name_case_rejected` applies, both are rejected -/
+def errorOf : ParseOutcome → Option PErr
+  | .error e => some e
+  | _ => none
+
+/-- a rejected vector and its variant (`FOO[]` for `REAL[]`; `FOO` is no type): `create_table_name_case_rejected` and
+`create_table_name_case_error_kind` apply; both are rejected, at the type name, with `NotDefinedType` quoting the
+spelling found (`SameKind`: the payloads differ in letter case only) -/
 example :
-    CreateVector (exT1.set 15 (tk 0 45 (idt "FOO"))) ∧
-    CaseVariant (exT1.set 15 (tk 0 45 (idt "FOO"))) (exT1.set 15 (tk 0 45 (idt "foo"))) ∧
-    isStmt (parseToks (fun _ => true) (exT1.set 15 (tk 0 45 (idt "FOO")))) = false ∧
-    isStmt (parseToks (fun _ => true) (exT1.set 15 (tk 0 45 (idt "foo")))) = false := by
+    CreateVector (exT1.set 33 (tk 0 91 (idt "FOO"))) ∧
+    CaseVariant (exT1.set 33 (tk 0 91 (idt "FOO"))) (exT1.set 33 (tk 0 91 (idt "foo"))) ∧
+    errorOf (parseTokens PrecTables.code (exT1.set 33 (tk 0 91 (idt "FOO")))) = some ⟨⟨0, 91⟩, .notDefinedType "FOO[]".toList⟩ ∧
+    errorOf (parseTokens PrecTables.code (exT1.set 33 (tk 0 91 (idt "foo")))) = some ⟨⟨0, 91⟩, .notDefinedType "foo[]".toList⟩ := by
   decide +kernel
+
+/-- `create_table_respell_equivariant` is not vacuous: lower-casing is a `CreateNameMap` -/
+example : parseTokens PrecTables.code (exT1.map (PTok.ren lowerChars)) = (parseTokens PrecTables.code exT1).renCreate lowerChars :=
+  create_table_respell_equivariant _ createNameMap_lowerChars exT1 exCreateHyps.1
 
 end Sqlgrep.Props.C20Create
